@@ -2,6 +2,8 @@ import KoordVerif.Proofs.C04Permit
 import KoordVerif.Proofs.C04ExtConc
 import KoordVerif.Proofs.C04ExtGroup
 import KoordVerif.Proofs.C04ExtRace
+import KoordVerif.Proofs.C04ExtWire
+import KoordVerif.Proofs.C04ExtCreate
 /-
 C04 — gang scheduling is all-or-nothing across the whole gang group (property theorems).
 
@@ -49,6 +51,25 @@ counts (waiting, or waiting + bound under waiting-and-running).
    groups_list_taken_literally     a non-empty JSON list is the group (sorted)
    group_never_empty            after ANY history no cached gang has an empty group: no vacuous group loop
    permit_release_own_min       a gang that is a group of its own is released only when IT holds its minimum
+ G. from the informer to the GangCache: the handler NewPodGroupManager registers (model: deliverDel; Proofs/C04ExtWire.lean)
+   direct_wiring_forwards_understood   the code's wiring (the ResourceEventHandlerFuncs literal itself — a regenerated
+                                fact): every shape onPodDelete / onPodGroupDelete understands reaches it
+   ignored_shape_is_nop         a shape they do not understand changes nothing
+   delivered_delete_removes     after a delivered delete — the object OR a re-list tombstone — the pod is in none of
+                                children / pending / waiting / bound of its gang
+   delivered_delete_not_counted ... and is not counted by isGangValidForPermit any more
+   filtered_wiring_drops_tombstone   behind a type filter the tombstone never reaches onPodDelete
+   tombstone_lost_counterexample     ... and Permit then releases with 2 live members of min 3 (only-waiting) / 1 of
+                                min 3 (waiting-and-running), where the code's wiring answers Wait
+ H. get-or-create of a Gang under racing informer goroutines (small-step; Proofs/C04ExtCreate.lean)
+   getOrCreate_atomic_unique    lookup + NewGang + store in ONE critical section (a regenerated fact): at every
+                                instant every goroutine that holds a Gang for an id holds THE cached one
+   newGang_race_atomic_safe     ... so once the pod informer's and the PodGroup informer's goroutines are done, every
+                                added pod is a pending child of the cached gang and every gang whose PodGroup was
+                                added is initialised — any number of goroutines, any schedule
+   getOrCreate_split_counterexample   read-locked fast path + unchecked store: both goroutines miss, one Gang replaces
+                                the other: the pod is in no set of the cached gang, or the cached gang is never
+                                initialised; sequentially the two shapes agree
 -/
 namespace KoordVerif.C04
 
@@ -798,5 +819,87 @@ theorem permit_release_own_min (s : State) (p : Pod) (id : GangId) (g : Gang)
   rw [permit_gang_after s p id g hg] at e
   cases e
   exact ⟨hi, hm⟩
+
+/-! ## G. from the informer to the GangCache -/
+
+theorem direct_wiring_forwards_understood (shape : Nat) (op : Op) (h : delUnderstood shape = true) :
+    deliverDel 0 shape op = op := by
+  simp [deliverDel, handlerForwardsDel, h]
+
+theorem ignored_shape_is_nop (wiring shape : Nat) (op : Op) (h : delUnderstood shape = false) :
+    deliverDel wiring shape op = .nop := by
+  simp [deliverDel, h]
+
+theorem filtered_wiring_drops_tombstone (op : Op) (s : State) :
+    deliverDel 1 1 op = .nop ∧ step s (deliverDel 1 1 op) = (s, {}) := by
+  have h : deliverDel 1 1 op = .nop := by simp [deliverDel, handlerForwardsDel]
+  exact ⟨h, by rw [h]; rfl⟩
+
+/-- The registered handler forwards, onPodDelete understands: after the delete event of pod `p` — delivered as the
+    object or as a re-list tombstone — `p` is in none of the sets of its gang. -/
+theorem delivered_delete_removes (s : State) (p : Pod) (id : GangId) (shape : Nat) (hs : delUnderstood shape = true)
+    (g : Gang) (hg : findGang (step s (deliverDel 0 shape (.podDel p id))).1.gangs id = some g) :
+    p ∉ g.ps.children ∧ p ∉ g.ps.pending ∧ p ∉ g.ps.waiting ∧ p ∉ g.ps.bound := by
+  rw [direct_wiring_forwards_understood shape _ hs] at hg
+  exact podDel_removes s p id g hg
+
+/-- the sizes isGangValidForPermit reads after a delivered delete count live members only: the deleted pod is in
+    neither list (the lists are duplicate-free in every reachable state, `nodupSets_all_histories`) -/
+theorem delivered_delete_not_counted (s : State) (p : Pod) (id : GangId) (shape : Nat) (hs : delUnderstood shape = true)
+    (g : Gang) (hg : findGang (step s (deliverDel 0 shape (.podDel p id))).1.gangs id = some g) :
+    (g.ps.waiting.filter (fun q => q != p)).length = g.ps.waiting.length ∧
+    (g.ps.bound.filter (fun q => q != p)).length = g.ps.bound.length := by
+  obtain ⟨_, _, hw, hb⟩ := delivered_delete_removes s p id shape hs g hg
+  constructor
+  · rw [List.filter_eq_self.mpr]
+    intro q hq
+    have : q ≠ p := fun e => hw (e ▸ hq)
+    simpa using this
+  · rw [List.filter_eq_self.mpr]
+    intro q hq
+    have : q ≠ p := fun e => hb (e ▸ hq)
+    simpa using this
+
+/-- A handler that filters by object type loses re-list tombstones, and then the gang is released below its minimum:
+    only-waiting, min 3: Permit(pod 3) = Success with pods 1 and 3 alive; waiting-and-running, min 3: Permit(pod 4) =
+    Success with pod 4 alone.  With the code's wiring (0) both Permits answer Wait. -/
+theorem tombstone_lost_counterexample :
+    (step (run init (ghostWaiting 1 0)) (.permit 3 0)).2.verdict = 0 ∧
+    (step (run init (ghostWaiting 0 0)) (.permit 3 0)).2.verdict = 1 ∧
+    (step (run init (ghostBound 1)) (.permit 4 0)).2.verdict = 0 ∧
+    (step (run init (ghostBound 0)) (.permit 4 0)).2.verdict = 1 := by
+  decide
+
+/-! ## H. get-or-create of a Gang under racing informer goroutines -/
+
+theorem getOrCreate_atomic_unique (progs : List (GangId × CAct)) (sched : List Nat) :
+    ∀ t ∈ ((cStart progs).run 1 sched).ts, 2 ≤ t.pc →
+      cLookup ((cStart progs).run 1 sched).cache t.gid = some t.obj :=
+  (cinv_run _ sched (cinv_start progs)).holds
+
+theorem newGang_race_atomic_safe (progs : List (GangId × CAct)) (sched : List Nat)
+    (hq : ((cStart progs).run 1 sched).quiescent) :
+    ∀ pr ∈ progs, ∃ x, cachedGang ((cStart progs).run 1 sched) pr.1 = some x ∧ pr.2.holds x := by
+  intro pr hpr
+  have hinv := cinv_run _ sched (cinv_start progs)
+  have hp : pr ∈ ((cStart progs).run 1 sched).ts.map (fun t => (t.gid, t.act)) := by
+    rw [run_progs, start_progs]; exact hpr
+  obtain ⟨t, ht, rfl⟩ := List.mem_map.mp hp
+  have h3 := hq t ht
+  obtain ⟨x, hx, hh⟩ := hinv.done t ht (by omega)
+  refine ⟨x, ?_, hh⟩
+  unfold cachedGang
+  rw [hinv.holds t ht (by omega)]
+  exact hx
+
+theorem getOrCreate_split_counterexample :
+    ((cStart raceProgs).run 2 raceSchedPodLost).quiescent ∧
+    cachedGang ((cStart raceProgs).run 2 raceSchedPodLost) 0 = some { oid := 1, init := true, children := [], pending := [] } ∧
+    ((cStart raceProgs).run 2 raceSchedInitLost).quiescent ∧
+    cachedGang ((cStart raceProgs).run 2 raceSchedInitLost) 0 = some { oid := 1, init := false, children := [7], pending := [7] } ∧
+    cachedGang ((cStart raceProgs).run 2 raceSchedSeq) 0 = cachedGang ((cStart raceProgs).run 1 raceSchedSeq) 0 ∧
+    cachedGang ((cStart raceProgs).run 1 raceSchedPodLost) 0 = some { oid := 0, init := true, children := [7], pending := [7] } := by
+  unfold CConf.quiescent
+  decide
 
 end KoordVerif.C04
